@@ -509,6 +509,15 @@ class Interp:
             lo = self.eval(frame, e.slice.lower) if e.slice.lower is not None else None
             hi = self.eval(frame, e.slice.upper) if e.slice.upper is not None else None
             if e.slice.step is not None:
+                # a constant step on a sequence of known size (x[::-1], x[::2]): computed on the display; a string constant likewise
+                step = self.eval(frame, e.slice.step)
+                o2 = self.ctx.from_val(obj) if isinstance(obj, SV) else obj
+                ints = lambda v: v is None or (isinstance(v, int) and not isinstance(v, bool))
+                if isinstance(step, int) and not isinstance(step, bool) and step != 0 and ints(lo) and ints(hi):
+                    if isinstance(o2, (VTuple, VList)):
+                        return o2.__class__(o2.items[lo:hi:step])
+                    if isinstance(o2, str):
+                        return o2[lo:hi:step]
                 raise Unsupported("slice step")
             return self.B.slice_(self, obj, lo, hi)
         idx = self.eval(frame, e.slice)
